@@ -19,18 +19,81 @@ Properties/C20.v take their expected values as premises discharged by
 eq_refl, so a source edit that changes one of them makes the proof side fail.
 The extractor refuses shapes it does not understand; that is turned into an
 exception here."""
-import json, os, subprocess
+import hashlib, json, os, re, shutil, subprocess
 
 import vlib
 
 
+class ExtractError(Exception):
+    pass
+
+
 def extract(repo):
+    """Primary path: the source-shape reader (go/ast, nothing is compiled).
+    VERIF_C20_FORCE_PROBE=1 (development aid) skips it to exercise the fallback."""
+    if os.environ.get("VERIF_C20_FORCE_PROBE"):
+        raise ExtractError("source reader skipped (VERIF_C20_FORCE_PROBE)")
     with vlib.Lock("go"):
         p = subprocess.run(["go", "run", "./cmd/extract-c20", repo], cwd=vlib.HARNESS, env=vlib.GOENV,
                            stdout=subprocess.PIPE, stderr=subprocess.PIPE, text=True, timeout=280)
     if p.returncode != 0:
-        raise RuntimeError("extract-c20 failed on %s (rc=%d): %s" % (repo, p.returncode, p.stderr.strip()[-2000:]))
+        raise ExtractError("extract-c20 on %s (rc=%d): %s" % (repo, p.returncode, p.stderr.strip()[-1200:]))
     return json.loads(p.stdout)
+
+
+def probe_facts(repo):
+    """Fallback, used only when the source shape is not recognised: every fact
+    is determined BEHAVIOURALLY by `c20 -probe` (harness/cmd/c20/probe.go),
+    built from `repo` through the harness module with -tags verif and run on
+    real wallets against internal/simchain.  Why each scenario determines its
+    fact - the facts are statements about what one call does, and the scenario
+    is that call:
+
+      <class>_removes / <class>_is_error   a funded wallet authors a FRESH transaction, the backend is scripted to
+          answer <class> (no error / ErrTxAlreadyInMempool / ErrTxAlreadyKnown / ErrTxAlreadyConfirmed / another
+          error), PublishTransaction is called: is_error = the call returned an error; removes = the transaction is
+          not in the unconfirmed store afterwards (UnminedTxHashes).  Two instances per class (spending a confirmed
+          coin; chained on an accepted unconfirmed parent) that must agree.
+      notify_failure_removes_tx / _is_error   the same with simchain.NotifyFail = 1 (the witness scenario of finding
+          S9, corpus/C20 line 1, C20_refuted_notify_failure); four instances (fresh/chained x scripted accept/reject);
+          additionally no SendRawTransaction call may happen.
+      records_before_broadcast   hooks on the backend's NotifyReceived and SendRawTransaction look into the store at
+          the moment of the call: true iff in all ten class instances the transaction is already recorded when the
+          subscription is requested, the subscription precedes the (single) broadcast, and it is still recorded then.
+      remove_unmined_is_remove_conflict   parent -> child -> grandchild all recorded; the parent is re-published and
+          refused with a class that removes: true iff child and grandchild are gone too (two wallets).
+      resend_uses_dependency_sort   six wallets (different txids and Go map orders) with that chain plus an independent
+          unconfirmed payment, three VerifResendUnminedTxs each: true iff a child is never offered before its parent
+          (the store order by txid would do so with probability 5/6 per wallet).
+      resend_offers_every_element   a refusing answer (rejected / already known) at each of the four positions of the
+          re-broadcast: true iff every transaction that was unconfirmed before the loop is offered exactly once.
+
+    Instances that disagree, or a harness that does not build, make this path fail."""
+    with vlib.Lock("go"):
+        os.makedirs(os.path.join(vlib.WORK, "bin"), exist_ok=True)
+        modflag = []
+        if repo == "/repo":
+            shutil.copyfile(os.path.join(repo, "go.sum"), os.path.join(vlib.HARNESS, "go.sum"))
+        else:
+            alt = os.path.join(vlib.WORK, "extract_c20_%s.mod" % hashlib.sha1(repo.encode()).hexdigest()[:8])
+            txt = open(os.path.join(vlib.HARNESS, "go.mod")).read().replace("=> /repo", "=> " + repo)
+            open(alt, "w").write(txt)
+            shutil.copyfile(os.path.join(repo, "go.sum"), alt[:-4] + ".sum")
+            modflag = ["-modfile=" + alt]
+        exe = os.path.join(vlib.WORK, "bin", "extract-c20-probe")
+        p = subprocess.run(["go", "build"] + modflag + ["-tags", "verif", "-o", exe, "./cmd/c20"], cwd=vlib.HARNESS,
+                           env=vlib.GOENV, stdout=subprocess.PIPE, stderr=subprocess.PIPE, text=True, timeout=900)
+        if p.returncode != 0:
+            raise ExtractError("probe: harness/cmd/c20 does not build against %s: %s" % (repo, (p.stdout + p.stderr)[-1200:]))
+    p = subprocess.run([exe, "-probe"], cwd=vlib.WORK, env=vlib.GOENV, stdout=subprocess.PIPE, stderr=subprocess.PIPE,
+                       text=True, timeout=300)
+    if p.returncode != 0:
+        raise ExtractError("probe: c20 -probe failed: %s" % p.stderr.strip()[-1200:])
+    return json.loads(p.stdout)
+
+
+def sanitize(s):
+    return re.sub(r"\s+", " ", s.replace("(*", "( *").replace("*)", "* )"))
 
 
 def b(x):
@@ -44,7 +107,7 @@ CLASSES = [("accepted", "accepted", "SendRawTransaction returned no error"),
            ("other", "rejected", "any other error")]
 
 
-def render(res):
+def render(res, source_line):
     rows = []
     for key, name, what in CLASSES:
         a = res["classes"][key]
@@ -53,6 +116,7 @@ def render(res):
     return """(* GENERATED by lib/extract_c20.py (harness/cmd/extract-c20, go/ast) from the
    repository's wallet/wallet.go and wtxmgr/{tx,unconfirmed}.go.
    Do not edit; bin/extract rewrites it. *)
+(* facts source: %s *)
 
 (* reliablyPublishTransaction records the transaction (addRelevantTx with a nil
    block) before NotifyReceived, and broadcasts (publishTransaction) after it *)
@@ -74,12 +138,22 @@ Definition resend_offers_every_element : bool := %s.
 
 (* RemoveUnminedTx (%s) is `return s.removeConflict(ns, rec)` *)
 Definition remove_unmined_is_remove_conflict : bool := %s.
-""" % (b(res["records_before_broadcast"]), res["notify_where"], b(res["notify_failure_removes_tx"]),
+""" % (source_line, b(res["records_before_broadcast"]), res["notify_where"], b(res["notify_failure_removes_tx"]),
        b(res["notify_failure_is_error"]), "\n".join(rows), res["resend_where"],
        b(res["resend_uses_dependency_sort"]), b(res["resend_offers_every_element"]),
        res["remove_where"], b(res["remove_unmined_is_remove_conflict"]))
 
 
 def main(repo, outdir, write_if_changed):
-    res = extract(repo)
-    write_if_changed(os.path.join(outdir, "PublishFacts.v"), render(res))
+    try:
+        res = extract(repo)
+        source_line = "source (go/ast shape reader harness/cmd/extract-c20)"
+    except (ExtractError, OSError, ValueError, KeyError, subprocess.SubprocessError) as e1:
+        why = sanitize(str(e1).replace(repo.rstrip("/") + "/", ""))
+        try:
+            res = probe_facts(repo)
+        except (ExtractError, OSError, ValueError, KeyError, subprocess.SubprocessError) as e2:
+            raise ExtractError("source shape not recognised (%s) AND probing the built code failed (%s)" % (e1, e2))
+        source_line = ("probe (source shape not recognised: %s; facts determined by %d wallet scenarios run on the code "
+                       "built from the repository, harness/cmd/c20 -probe)" % (why[-300:], res.get("scenarios", 0)))
+    write_if_changed(os.path.join(outdir, "PublishFacts.v"), render(res, source_line))
